@@ -77,8 +77,10 @@ def codeMd (lang : Option String) (text : String) : String :=
     else "``` " ++ l ++ "\n" ++ trimNl text ++ "\n```\n"
   | none => "```\n" ++ trimNl text ++ "\n```\n"
 
+/-- every line of the quoted blocks behind `> `; an empty line becomes `>` (trailing whitespace of a line is content:
+code lines ending in spaces) -/
 def quoteLines (inner : String) : String :=
-  "\n".intercalate ((lines inner).map fun l => trim ("> " ++ l)) ++ "\n"
+  "\n".intercalate ((lines inner).map fun l => if l.isEmpty then ">" else "> " ++ l) ++ "\n"
 
 def joinWith (sep : String) (xs : List String) : String := sep.intercalate xs
 
